@@ -11,6 +11,17 @@ package server
 //
 //	sched-trace <maxRunners> <maxQueue> <defaultSession> <cpu> <ngpus> | <ev> ; <obs> | <ev> ; <obs> ...
 //
+// Events (SCHED_PROTOCOL.md plus): `submitr m opts sess` = submit whose requester is the REAL Server.scheduleRunner
+// (models are installed in a real model store, GetModel / modelOptions / GetRunner / its select run); `ping r 2` = from
+// now on Ping of runner r parks (needsReload holds refMu) until `pingdone r 0|1` or until its 10 s context ends;
+// `parallel n` (OLLAMA_NUM_PARALLEL, 0 = automatic), `gpumem 1` (GPU 1 has no room for a model: a second model does not
+// fit next to one still loading on GPU 0 and is put back on the queue), `closedelay ms` (Close of runners started from
+// now on takes that much fake time; a runner is LIVE until Close has returned; closeCount in the observation counts
+// returned Close calls, closed is llama == nil as before).
+// Requesters of the GetRunner path whose request was cancelled before it was answered do not listen while the scheduler
+// reacts to an event and listen again before the driver observes (see quiesce): a hand-over that races with the
+// cancellation meets a requester that is not ready, deterministically, whichever case a two-way select would take.
+//
 // Events that are not enabled when their turn comes (`loaddone` of a runner that is not loading, `done` of an unknown
 // or finished request, `advance` while a goroutine is parked on a mutex, ...) are skipped and do not appear in the
 // line; `advance <ms>` reports the fake time that actually passed (it is cut short after 256 timer hops or when a
@@ -18,14 +29,17 @@ package server
 //
 // L2 kinds: c01-closed-in-use c01-double-close c01-grant-closed c02-double-reply c02-blocked-submit c02-unanswered
 // c02-not-drained c11-over-limit c11-two-per-model c11-no-reuse c11-busy-victim (SCHED_PROTOCOL.md) and, in addition,
-// c02-deadlock-queue / c02-deadlock-lockorder (goroutines parked on a mutex for good, see monitors()).
-// c02-unanswered is evaluated at every quiescent point at which no load is in flight, every request that holds a
-// runner is done and 300 ms of fake time have passed since the last event (at the very end of a drained trace every
-// request is done, so "unanswered and not cancelled" could never be observed there).
+// c11-wrong-options (a runner is started with NumCtx != the request's NumCtx x the parallel factor passed),
+// c02-deadlock-queue / c02-deadlock-lockorder / c02-deadlock-handover (goroutines parked for good, see monitors();
+// once one of them fired the liveness monitors are silent for that trace).
+// c02-unanswered is evaluated at every quiescent point at which no load / Ping / Close is in flight, every request that
+// holds a runner is done and 300 ms of fake time have passed since the last event (at the very end of a drained trace
+// every request is done, so "unanswered and not cancelled" could never be observed there).
 //
 // Environment: VERIF_N (default 300), VERIF_SEED, VERIF_REPLAY=<file of script lines>, VERIF_SHRINK=1 (greedy shrinking of
 // one script per L2 kind -> shrunk.txt in VERIF_OUT), VERIF_SCHED_CFG="<maxRunners> <maxQueue> <defSess> <cpu> <ngpus>"
-// (pins configuration fields of generated traces, `-` = random), VERIF_SCHED_LOG=<file> (the scheduler's debug log).
+// (pins configuration fields of generated traces, `-` = random), VERIF_SCHED_LOG=<file> (the scheduler's debug log),
+// VERIF_SCHED_NOBLOCKPING=1 (no blocking pings).
 // Not meant for -race: at quiescent points with mutex-parked goroutines the driver reads scheduler state unlocked.
 //
 // Quiescence.  synctest.Wait() alone cannot be used: sched.go holds runnerRef.refMu across
@@ -64,6 +78,7 @@ import (
 	"bufio"
 	"bytes"
 	"context"
+	"crypto/sha256"
 	"errors"
 	"fmt"
 	"io"
@@ -85,6 +100,7 @@ import (
 	"github.com/ollama/ollama/format"
 	"github.com/ollama/ollama/fs/ggml"
 	"github.com/ollama/ollama/llm"
+	"github.com/ollama/ollama/types/model"
 	"github.com/ollama/ollama/zzverif"
 )
 
@@ -110,16 +126,16 @@ func (c schedCfg) header() string {
 }
 
 type schedEv struct {
-	kind string // submit | done | loaddone | ping | unload | advance | failstart
+	kind string // submit | submitr | done | loaddone | ping | pingdone | unload | advance | failstart | parallel | gpumem | closedelay
 	a, b int
 	sess string // submit only: - 0 S L
 }
 
 func (e schedEv) String() string {
 	switch e.kind {
-	case "submit":
-		return fmt.Sprintf("submit %d %d %s", e.a, e.b, e.sess)
-	case "done", "unload", "advance":
+	case "submit", "submitr":
+		return fmt.Sprintf("%s %d %d %s", e.kind, e.a, e.b, e.sess)
+	case "done", "unload", "advance", "parallel", "gpumem", "closedelay":
 		return fmt.Sprintf("%s %d", e.kind, e.a)
 	default:
 		return fmt.Sprintf("%s %d %d", e.kind, e.a, e.b)
@@ -168,11 +184,11 @@ func schedParse(line string) (schedCfg, []schedEv, error) {
 		e := schedEv{kind: f[0]}
 		want := 3
 		switch f[0] {
-		case "submit":
+		case "submit", "submitr":
 			want = 4
-		case "done", "unload", "advance":
+		case "done", "unload", "advance", "parallel", "gpumem", "closedelay":
 			want = 2
-		case "loaddone", "ping", "failstart":
+		case "loaddone", "ping", "failstart", "pingdone":
 		default:
 			return cfg, nil, fmt.Errorf("unknown event %q", p)
 		}
@@ -230,7 +246,18 @@ type schedMock struct {
 	rel     chan error // the script releases WaitUntilRunning through this
 	waiting bool       // WaitUntilRunning is in flight
 	pingOK  bool
-	closes  int
+	closes  int // Close calls that have RETURNED (the observation's closeCount; the runner is live until then)
+
+	numCtx, np   int           // what newServerFn was given
+	closeCalls   int           // Close calls that have started
+	closeDelay   time.Duration // fake time Close takes (the runner process shutting down)
+	closing      bool
+	closeAt      time.Time
+	closeRel     chan struct{}
+	pingBlock    bool // Ping parks until the script releases it (`pingdone`) or its ctx ends
+	pinging      bool
+	pingDeadline time.Time
+	pingRel      chan error
 }
 
 // WaitUntilRunning deliberately ignores ctx: `.loadDone r false` is an environment event of the model, so a
@@ -246,10 +273,42 @@ func (m *schedMock) WaitUntilRunning(ctx context.Context) error {
 }
 
 func (m *schedMock) Ping(ctx context.Context) error {
+	if m.pingBlock && !m.r.ending {
+		// needsReload calls Ping with refMu held and a 10 s (2 min while loading) timeout on the SCHEDULER's context
+		m.pinging = true
+		m.pingDeadline, _ = ctx.Deadline()
+		var err error
+		select {
+		case err = <-m.pingRel:
+		case <-ctx.Done():
+			err = ctx.Err()
+			m.r.stats["ping_ctx_ended"]++
+		}
+		m.pinging = false
+		return err
+	}
 	if m.pingOK {
 		return nil
 	}
 	return errors.New("verif: ping failed")
+}
+
+// Close takes closeDelay of fake time (the runner process needs time to exit); the runner is LIVE until Close has
+// returned.  The driver releases it early when another goroutine is parked on a mutex the closer holds (fake time
+// cannot move then; in reality that goroutine simply waits for Close).
+func (m *schedMock) Close() error {
+	m.closeCalls++
+	if m.closeDelay > 0 && !m.r.ending {
+		m.closing = true
+		m.closeAt = time.Now().Add(m.closeDelay)
+		select {
+		case <-time.After(m.closeDelay):
+		case <-m.closeRel:
+		}
+		m.closing = false
+	}
+	m.closes++
+	return nil
 }
 
 func (m *schedMock) Completion(ctx context.Context, req llm.CompletionRequest, fn func(llm.CompletionResponse)) error {
@@ -258,7 +317,6 @@ func (m *schedMock) Completion(ctx context.Context, req llm.CompletionRequest, f
 func (m *schedMock) Embedding(ctx context.Context, input string) ([]float32, error) { return nil, nil }
 func (m *schedMock) Tokenize(ctx context.Context, content string) ([]int, error)    { return nil, nil }
 func (m *schedMock) Detokenize(ctx context.Context, tokens []int) (string, error)   { return "", nil }
-func (m *schedMock) Close() error                                                   { m.closes++; return nil }
 func (m *schedMock) EstimatedVRAM() uint64                                          { return 10 }
 func (m *schedMock) EstimatedTotal() uint64                                         { return 10 }
 func (m *schedMock) EstimatedVRAMByGPU(id string) uint64 {
@@ -283,6 +341,11 @@ type schedReq struct {
 	busyErr         bool
 	fullAtSubmit    bool
 	grantClosed     string
+	routed          bool          // the requester is the real Server.scheduleRunner (server/routes.go)
+	leftEarly       bool          // scheduleRunner returned the context's error without a reply from the scheduler
+	nilGrant        bool          // scheduleRunner returned a nil llama: the runner was unloaded before it looked
+	ctl             chan struct{} // pauses / resumes the GetRunner-path requester
+	paused          bool
 }
 
 func (q *schedReq) replies() int { return q.nRunner + q.nErr }
@@ -292,6 +355,7 @@ type schedSnap struct {
 	refCount []uint
 	sess     []time.Duration
 	closed   []bool
+	closing  []bool // Close has been called (it may not have returned yet)
 }
 
 type schedL2 struct{ kind, detail string }
@@ -335,11 +399,18 @@ type schedRun struct {
 	l2seen   map[string]bool
 	stats    map[string]int
 	noReuse  []string
+	wrongOpt []string
+
+	srv        *Server
+	closeDelay time.Duration // for runners started from now on (`closedelay`)
+	gpumem     int           // `gpumem`
+	routedWait int           // scheduleRunner calls that have not returned
+	inWindow   bool
 }
 
 type schedCensus struct {
 	others, active, mutex, sleeping, durable int
-	schedSend                                int
+	schedSend, handover                      int
 	activeDesc, mutexDesc                    string
 }
 
@@ -453,7 +524,12 @@ func (r *schedRun) scan(b []byte, c *schedCensus, ids map[string]bool) {
 			if e := bytes.Index(blk, []byte("\n\n")); e >= 0 {
 				blk = blk[:e]
 			}
-			if bytes.Contains(blk, []byte("ollama/server.(*Scheduler)")) {
+			switch src := schedSendSite(blk); {
+			case strings.Contains(src, "successCh <-"):
+				c.handover++ // the unbuffered hand-over of a runner to its requester (made with refMu held)
+			case strings.Contains(src, "pendingReqCh <-"):
+				// a delayed request waits for room in the pending queue: processPending may be waiting for a `done`
+			case src != "":
 				c.schedSend++
 			}
 		case strings.HasSuffix(st, "(durable)") || st == "chan receive (nil chan)" || st == "chan send (nil chan)" ||
@@ -466,19 +542,79 @@ func (r *schedRun) scan(b []byte, c *schedCensus, ids map[string]bool) {
 	}
 }
 
-// quiesce returns when every other goroutine of the bubble is parked (durably or on a mutex).
+var schedSrc = map[string][]string{}
+
+// schedSendSite returns the source line of sched.go at which the goroutine of this stack block is parked ("" if none):
+// the dump does not say which channel a send is parked on, the source line does.
+func schedSendSite(blk []byte) string {
+	i := bytes.Index(blk, []byte("/sched.go:"))
+	if i < 0 {
+		return ""
+	}
+	st := bytes.LastIndexByte(blk[:i], '\t')
+	end := i + len("/sched.go:")
+	n := 0
+	for end < len(blk) && blk[end] >= '0' && blk[end] <= '9' {
+		n = n*10 + int(blk[end]-'0')
+		end++
+	}
+	path := string(blk[st+1 : i+len("/sched.go")])
+	lines, ok := schedSrc[path]
+	if !ok {
+		data, _ := os.ReadFile(path)
+		lines = strings.Split(string(data), "\n")
+		schedSrc[path] = lines
+	}
+	if n >= 1 && n <= len(lines) {
+		return lines[n-1]
+	}
+	return ""
+}
+
+// quiesce returns when every other goroutine of the bubble is parked (durably or on a mutex).  On the way it lets the
+// paused requesters (cancelled, not yet answered) listen for a moment, and lets a Close return on which others wait.
 func (r *schedRun) quiesce() {
-	for i := 0; ; i++ {
-		runtime.Gosched()
-		c := r.census()
-		if c.active == 0 {
-			r.cen = c
+	r.park()
+	for {
+		// Requesters whose request was cancelled before it was answered do not listen while the scheduler reacts to
+		// an event (a requester that is momentarily busy, e.g. writing its 499): a hand-over that races with the
+		// cancellation then meets a requester that is NOT ready, deterministically.  They listen again before the
+		// driver looks, so the observation is the one an always-listening requester produces.
+		var ps []*schedReq
+		for _, q := range r.reqs {
+			if q.paused {
+				ps = append(ps, q)
+			}
+		}
+		if len(ps) > 0 && !r.inWindow {
+			r.inWindow = true
+			for _, q := range ps {
+				r.ctl(q, false)
+			}
+			r.park()
+			for _, q := range ps {
+				if q.replies() == 0 && !r.ending {
+					r.ctl(q, true)
+				}
+			}
+			r.park()
+			r.inWindow = false
+		}
+		// a goroutine is parked on a mutex while a Close is sleeping in fake time: fake time is frozen, let Close return
+		released := false
+		if r.cen.mutex > 0 {
+			for _, m := range r.mocks {
+				if m.closing && len(m.closeRel) == 0 {
+					m.closeRel <- struct{}{}
+					r.stats["close_released_for_mutex_waiter"]++
+					released = true
+				}
+			}
+		}
+		if !released {
 			break
 		}
-		if i > 200000 {
-			n := runtime.Stack(r.buf, true)
-			panic("verif sched: no quiescence (" + c.activeDesc + ")\n" + string(r.buf[:n]))
-		}
+		r.park()
 	}
 	if r.cen.mutex == 0 {
 		synctest.Wait()
@@ -501,6 +637,31 @@ func (r *schedRun) quiesce() {
 	}
 }
 
+// ctl pauses / resumes the requester goroutine of q (which is parked in its select).
+func (r *schedRun) ctl(q *schedReq, pause bool) {
+	select {
+	case q.ctl <- struct{}{}:
+		q.paused = pause
+	default:
+		panic(fmt.Sprintf("verif sched: requester of request %d is not parked (pause=%v)", q.id, pause))
+	}
+}
+
+func (r *schedRun) park() {
+	for i := 0; ; i++ {
+		runtime.Gosched()
+		c := r.census()
+		if c.active == 0 {
+			r.cen = c
+			break
+		}
+		if i > 200000 {
+			n := runtime.Stack(r.buf, true)
+			panic("verif sched: no quiescence (" + c.activeDesc + ")\n" + string(r.buf[:n]))
+		}
+	}
+}
+
 // advance moves fake time by up to d, stopping at every pending timer deadline; returns the time advanced.
 func (r *schedRun) advance(d time.Duration) time.Duration {
 	start := time.Now()
@@ -519,6 +680,14 @@ func (r *schedRun) advance(d time.Duration) time.Duration {
 		for _, ref := range r.refs {
 			if ref != nil && ref.expireTimer != nil && ref.expiresAt.After(now) && ref.expiresAt.Before(next) {
 				next = ref.expiresAt
+			}
+		}
+		for _, m := range r.mocks {
+			if m.closing && m.closeAt.After(now) && m.closeAt.Before(next) {
+				next = m.closeAt
+			}
+			if m.pinging && m.pingDeadline.After(now) && m.pingDeadline.Before(next) {
+				next = m.pingDeadline
 			}
 		}
 		slog.Debug("verif hop", "d", next.Sub(now), "census", fmt.Sprint(r.cen))
@@ -555,7 +724,8 @@ func (r *schedRun) refID(ref *runnerRef) int {
 	return -1
 }
 
-func schedOptsClass(o api.Options) int { return o.NumCtx/8 - 1 }
+// schedOptsClass: request class k asks for NumCtx = 8+8k; a runner is started with NumCtx * numParallel
+func schedOptsClass(o api.Options, np int) int { return o.NumCtx/max(1, np)/8 - 1 }
 
 func (r *schedRun) gpus() discover.GpuInfoList {
 	if r.cfg.cpu == 1 {
@@ -569,6 +739,11 @@ func (r *schedRun) gpus() discover.GpuInfoList {
 		g := discover.GpuInfo{Library: "metal", ID: strconv.Itoa(i)}
 		g.TotalMemory = 24 * format.GigaByte
 		g.FreeMemory = uint64(12-i) * format.GigaByte
+		if i > 0 && r.gpumem == 1 {
+			// too little for any model: a second model does not fit next to one that is still loading on GPU 0, so the
+			// request is put back on the queue (reschedDelay) and pickBestFullFitByLibrary's back-off runs
+			g.FreeMemory = 64 * format.KibiByte
+		}
 		l = append(l, g)
 	}
 	return l
@@ -604,14 +779,14 @@ func (r *schedRun) setup() {
 	s.getCpuFn = r.gpus
 	s.newServerFn = func(gpus discover.GpuInfoList, model string, f *ggml.GGML, adapters []string, projectors []string, opts api.Options, numParallel int) (llm.LlamaServer, error) {
 		mi := r.modelIndex(model)
-		k := schedOptsClass(opts)
+		k := schedOptsClass(opts, numParallel)
 		var last *schedMock
 		for _, m := range r.mocks {
 			if m.model != mi {
 				continue
 			}
 			last = m
-			if m.closes == 0 && m.opts == k && m.pingOK && !m.waiting {
+			if m.closeCalls == 0 && m.opts == k && m.pingOK && !m.pingBlock && !m.waiting {
 				if ref := r.refs[m.id]; ref == nil || ref.llama != nil {
 					r.noReuse = append(r.noReuse, fmt.Sprintf("newServerFn for model %d opts %d while runner %d (same model and opts, healthy, not closed) is live", mi, k, m.id))
 				}
@@ -631,7 +806,8 @@ func (r *schedRun) setup() {
 			r.stats["sc_newserver_fail"]++
 			return nil, errors.New("verif: runner did not start")
 		}
-		m := &schedMock{r: r, id: len(r.mocks), model: mi, opts: k, loadReq: -1, rel: make(chan error, 1), pingOK: true}
+		m := &schedMock{r: r, id: len(r.mocks), model: mi, opts: k, loadReq: -1, rel: make(chan error, 1), pingOK: true,
+			numCtx: opts.NumCtx, np: numParallel, closeDelay: r.closeDelay, closeRel: make(chan struct{}, 1), pingRel: make(chan error, 1)}
 		if len(gpus) > 0 {
 			m.gpuID = gpus[0].ID
 		}
@@ -652,11 +828,22 @@ func (r *schedRun) setup() {
 			if ref != nil && ref.llama == llm.LlamaServer(m) {
 				r.refs[before] = ref
 			}
-			if q, ok := r.reqByCtx[req.ctx]; ok {
-				m.loadReq = q
+			if qi, ok := r.reqByCtx[req.ctx]; ok {
+				m.loadReq = qi
+				// the options a runner is started with must be the request's: NumCtx x the parallel factor in force
+				q := r.reqs[qi]
+				if want := (8 + 8*q.opts) * max(1, m.np); m.numCtx != want {
+					r.wrongOpt = append(r.wrongOpt, fmt.Sprintf("runner %d for request %d (model %d, NumCtx %d) was started with NumCtx %d and numParallel %d (expected NumCtx %d)",
+						m.id, qi, q.model, 8+8*q.opts, m.numCtx, m.np, want))
+				}
+				m.opts = q.opts // what it was asked to serve
+				if r.stats != nil && m.np != 1 {
+					r.stats[fmt.Sprintf("sc_started_parallel_%d", m.np)]++
+				}
 			}
 		}
 	}
+	r.srv = &Server{sched: s}
 	s.Run(r.ctx)
 	r.quiesce()
 	r.prev = r.snap()
@@ -678,12 +865,14 @@ func (r *schedRun) snap() schedSnap {
 			sn.refCount = append(sn.refCount, 0)
 			sn.sess = append(sn.sess, -1)
 			sn.closed = append(sn.closed, false)
+			sn.closing = append(sn.closing, r.mocks[i].closeCalls > 0)
 			r.stats["runner_ref_unknown"]++
 			continue
 		}
 		sn.refCount = append(sn.refCount, ref.refCount)
 		sn.sess = append(sn.sess, ref.sessionDuration)
 		sn.closed = append(sn.closed, ref.llama == nil)
+		sn.closing = append(sn.closing, r.mocks[i].closeCalls > 0)
 	}
 	return sn
 }
@@ -766,14 +955,22 @@ func (r *schedRun) sessDur(s string) *api.Duration {
 
 func (r *schedRun) enabled(e schedEv) bool {
 	switch e.kind {
-	case "submit":
+	case "submit", "submitr":
 		return e.a >= 0 && e.a < schedNModels && (e.b == 0 || e.b == 1) && len(r.reqs) < schedMaxReqs
+	case "parallel":
+		return e.a >= 0 && e.a <= 8
+	case "gpumem":
+		return e.a == 0 || e.a == 1
+	case "closedelay":
+		return e.a >= 0 && e.a <= 1000
+	case "pingdone":
+		return e.a >= 0 && e.a < len(r.mocks) && r.mocks[e.a].pinging && (e.b == 0 || e.b == 1)
 	case "done":
 		return e.a >= 0 && e.a < len(r.reqs) && !r.reqs[e.a].done
 	case "loaddone":
 		return e.a >= 0 && e.a < len(r.mocks) && r.mocks[e.a].waiting && (e.b == 0 || e.b == 1)
 	case "ping":
-		return e.a >= 0 && e.a < len(r.mocks) && (e.b == 0 || e.b == 1)
+		return e.a >= 0 && e.a < len(r.mocks) && (e.b == 0 || e.b == 1 || e.b == 2) && !r.mocks[e.a].pinging
 	case "unload":
 		return e.a >= 0 && e.a < schedNModels
 	case "failstart":
@@ -795,8 +992,8 @@ func (r *schedRun) apply(e schedEv) bool {
 	slog.Debug("verif event", "ev", e.String(), "census", fmt.Sprint(r.cen))
 	var subq *schedReq
 	switch e.kind {
-	case "submit":
-		q := &schedReq{id: len(r.reqs), model: e.a, opts: e.b, sess: e.sess, lastRunner: -1}
+	case "submit", "submitr":
+		q := &schedReq{id: len(r.reqs), model: e.a, opts: e.b, sess: e.sess, lastRunner: -1, routed: e.kind == "submitr", ctl: make(chan struct{})}
 		q.ctx, q.cancel = context.WithCancel(context.Background())
 		q.fullAtSubmit = len(r.s.pendingReqCh) == cap(r.s.pendingReqCh)
 		r.reqs = append(r.reqs, q)
@@ -804,33 +1001,70 @@ func (r *schedRun) apply(e schedEv) bool {
 		subq = q
 		opts := api.DefaultOptions()
 		opts.NumCtx = 8 + 8*e.b
-		model, sess := r.models[e.a], r.sessDur(e.sess)
+		mdl, sess := r.models[e.a], r.sessDur(e.sess)
+		granted := func(id int, nilLlama bool) {
+			q.nRunner++
+			q.lastRunner = id
+			// a request that is already done (cancelled) is no user of the runner: its finish event may
+			// legitimately unload the runner before this goroutine gets to look at it
+			if q.done {
+				r.stats["grant_after_done"]++
+			} else if nilLlama {
+				q.grantClosed = fmt.Sprintf("request %d received runner %d with llama == nil", q.id, id)
+			} else if id >= 0 && r.mocks[id].closeCalls > 0 {
+				q.grantClosed = fmt.Sprintf("request %d received runner %d whose server was already closed", q.id, id)
+			}
+			if id >= 0 && r.mocks[id].loadReq != q.id {
+				r.stats["sc_reuse"]++
+			}
+		}
+		failed := func(err error) {
+			q.nErr++
+			slog.Debug("verif request failed", "q", q.id, "err", err)
+			if errors.Is(err, ErrMaxQueue) {
+				q.busyErr = true
+				r.stats["sc_queue_overflow"]++
+			}
+		}
+		if q.routed {
+			// the requester is the real Server.scheduleRunner: GetModel from the model store, modelOptions, GetRunner and
+			// its select; like a handler it stops listening once it has its answer
+			r.routedWait++
+			r.stats["reqs_routed"]++
+			go func() {
+				llama, _, _, err := r.srv.scheduleRunner(q.ctx, mdl.ShortName, []model.Capability{model.CapabilityCompletion}, map[string]any{"num_ctx": float64(8 + 8*e.b)}, sess)
+				r.routedWait--
+				q.returned = true
+				switch {
+				case err == nil:
+					id := -1
+					if m, ok := llama.(*schedMock); ok && m != nil {
+						id = m.id
+					}
+					granted(id, llama == nil)
+					q.nilGrant = llama == nil
+				case q.done && errors.Is(err, context.Canceled):
+					q.leftEarly = true // not an answer of the scheduler
+				default:
+					failed(err)
+				}
+			}()
+			break
+		}
 		go func() {
-			succ, errc := r.s.GetRunner(q.ctx, model, opts, sess)
+			succ, errc := r.s.GetRunner(q.ctx, mdl, opts, sess)
 			q.returned = true
 			for {
 				select {
 				case ref := <-succ:
-					id := r.refID(ref)
-					q.nRunner++
-					q.lastRunner = id
-					// a request that is already done (cancelled) is no user of the runner: its finish event may
-					// legitimately unload the runner before this goroutine gets to look at it
-					if q.done {
-						r.stats["grant_after_done"]++
-					} else if ref.llama == nil {
-						q.grantClosed = fmt.Sprintf("request %d received runner %d with llama == nil", q.id, id)
-					} else if id >= 0 && r.mocks[id].closes > 0 {
-						q.grantClosed = fmt.Sprintf("request %d received runner %d whose server was already closed", q.id, id)
-					}
-					if id >= 0 && r.mocks[id].loadReq != q.id {
-						r.stats["sc_reuse"]++
-					}
+					granted(r.refID(ref), ref.llama == nil)
 				case err := <-errc:
-					q.nErr++
-					if errors.Is(err, ErrMaxQueue) {
-						q.busyErr = true
-						r.stats["sc_queue_overflow"]++
+					failed(err)
+				case <-q.ctl: // paused: not listening until resumed
+					select {
+					case <-q.ctl:
+					case <-r.stop:
+						return
 					}
 				case <-r.stop:
 					return
@@ -852,6 +1086,14 @@ func (r *schedRun) apply(e schedEv) bool {
 		case q.replies() == 0:
 			r.stats["sc_cancel_before_reply"]++
 		}
+		for _, m := range r.mocks {
+			if m.pinging && m.model == q.model && q.replies() == 0 {
+				r.stats["sc_cancel_during_ping"]++
+			}
+		}
+		if !q.routed && q.replies() == 0 && q.returned {
+			r.ctl(q, true) // see quiesce
+		}
 		q.cancel()
 	case "loaddone":
 		if e.b == 1 {
@@ -861,7 +1103,27 @@ func (r *schedRun) apply(e schedEv) bool {
 			r.mocks[e.a].rel <- errors.New("verif: load failed")
 		}
 	case "ping":
-		r.mocks[e.a].pingOK = e.b == 1
+		if e.b == 2 {
+			r.mocks[e.a].pingBlock = true
+		} else {
+			r.mocks[e.a].pingOK, r.mocks[e.a].pingBlock = e.b == 1, false
+		}
+	case "pingdone":
+		if e.b == 1 {
+			r.mocks[e.a].pingRel <- nil
+		} else {
+			r.mocks[e.a].pingRel <- errors.New("verif: ping failed")
+		}
+	case "parallel":
+		if e.a == 0 {
+			os.Unsetenv("OLLAMA_NUM_PARALLEL") // automatic
+		} else {
+			os.Setenv("OLLAMA_NUM_PARALLEL", strconv.Itoa(e.a))
+		}
+	case "gpumem":
+		r.gpumem = e.a
+	case "closedelay":
+		r.closeDelay = time.Duration(e.a) * time.Millisecond
 	case "failstart":
 		r.failStart[e.a] = e.b == 0
 	case "unload":
@@ -901,6 +1163,24 @@ func (r *schedRun) apply(e schedEv) bool {
 	r.stats["ev_"+e.kind]++
 	r.executed = append(r.executed, e)
 	sn := r.snap()
+	for _, q := range r.reqs {
+		if q.nilGrant {
+			// scheduleRunner only returns runner.llama; for a cancelled request the finish event may have unloaded the
+			// runner before scheduleRunner looked at it: it is the runner of that model that was closed in this step
+			q.nilGrant = false
+			var ids []int
+			for id := range sn.closed {
+				if r.mocks[id].model == q.model && sn.closed[id] && (id >= len(r.prev.closed) || !r.prev.closed[id]) {
+					ids = append(ids, id)
+				}
+			}
+			if len(ids) == 1 {
+				q.lastRunner = ids[0]
+			} else {
+				r.stats["routed_grant_runner_unknown"]++
+			}
+		}
+	}
 	r.line.WriteString(" | ")
 	r.line.WriteString(e.String())
 	r.line.WriteString(" ; ")
@@ -925,7 +1205,7 @@ func (r *schedRun) monitors(e schedEv, subq *schedReq, sn schedSnap) {
 		if q.grantClosed != "" {
 			r.flag("c01-grant-closed", q.grantClosed)
 		}
-		if q.nRunner > 0 && !q.done && q.lastRunner >= 0 && r.mocks[q.lastRunner].closes > 0 {
+		if q.nRunner > 0 && !q.done && q.lastRunner >= 0 && r.mocks[q.lastRunner].closeCalls > 0 {
 			r.flag("c01-closed-in-use", fmt.Sprintf("runner %d (model %d) was closed while request %d, which received it, is not done", q.lastRunner, r.mocks[q.lastRunner].model, q.id))
 		}
 		if q.replies() > 1 {
@@ -935,10 +1215,10 @@ func (r *schedRun) monitors(e schedEv, subq *schedReq, sn schedSnap) {
 	live := 0
 	perModel := map[int][]int{}
 	for _, m := range r.mocks {
-		if m.closes > 1 {
-			r.flag("c01-double-close", fmt.Sprintf("runner %d closed %d times", m.id, m.closes))
+		if m.closeCalls > 1 {
+			r.flag("c01-double-close", fmt.Sprintf("runner %d closed %d times", m.id, m.closeCalls))
 		}
-		if m.closes == 0 {
+		if m.closes == 0 { // live: started and Close has not RETURNED
 			live++
 			perModel[m.model] = append(perModel[m.model], m.id)
 		}
@@ -956,9 +1236,15 @@ func (r *schedRun) monitors(e schedEv, subq *schedReq, sn schedSnap) {
 		r.flag("c11-no-reuse", d)
 	}
 	r.noReuse = nil
+	for _, d := range r.wrongOpt {
+		r.flag("c11-wrong-options", d)
+	}
+	r.wrongOpt = nil
 	// C02: submit never blocks, and answers ErrMaxQueue exactly when the queue is full
 	if subq != nil {
 		switch {
+		case subq.routed && !subq.returned:
+			// scheduleRunner only returns with the answer
 		case !subq.returned:
 			r.flag("c02-blocked-submit", fmt.Sprintf("GetRunner of request %d did not return", subq.id))
 		case subq.fullAtSubmit && !(subq.busyErr && subq.nRunner == 0):
@@ -971,7 +1257,7 @@ func (r *schedRun) monitors(e schedEv, subq *schedReq, sn schedSnap) {
 	// answered in this step (processPending was idle and decided on exactly the previous quiescent state), the answer
 	// must be that runner and no runner may have been started for it
 	if subq != nil {
-		if id, ok := r.prev.loaded[e.a]; ok && id >= 0 && !r.prev.closed[id] && r.mocks[id].opts == e.b && r.mocks[id].pingOK && !r.mocks[id].waiting {
+		if id, ok := r.prev.loaded[e.a]; ok && id >= 0 && !r.prev.closed[id] && !r.prev.closing[id] && r.mocks[id].opts == e.b && r.mocks[id].pingOK && !r.mocks[id].pingBlock && !r.mocks[id].waiting {
 			for _, m := range r.mocks {
 				if m.loadReq == subq.id {
 					r.flag("c11-no-reuse", fmt.Sprintf("request %d (model %d opts %d) started runner %d although runner %d was loaded with the same options and healthy", subq.id, e.a, e.b, m.id, id))
@@ -980,10 +1266,15 @@ func (r *schedRun) monitors(e schedEv, subq *schedReq, sn schedSnap) {
 			if subq.nRunner > 0 && subq.lastRunner != id {
 				r.flag("c11-no-reuse", fmt.Sprintf("request %d (model %d opts %d) received runner %d although runner %d was loaded with the same options and healthy", subq.id, e.a, e.b, subq.lastRunner, id))
 			}
+			// a submit only enqueues: whatever changed in this step was decided for this request.  The runner's keep-alive
+			// was zeroed although the request does not ask for that: the pending loop expired it in order to reload
+			if subq.nRunner == 0 && e.sess != "0" && r.prev.sess[id] > 0 && sn.sess[id] == 0 {
+				r.flag("c11-no-reuse", fmt.Sprintf("request %d (model %d opts %d) made the scheduler expire runner %d, which was loaded with the same options and healthy, instead of using it", subq.id, e.a, e.b, id))
+			}
 		}
 	}
 	// victim choice: a `submit` taken by an idle processPending decides on exactly the previous quiescent state.
-	if e.kind == "submit" {
+	if subq != nil {
 		for id := range r.prev.sess {
 			if r.prev.sess[id] <= 0 || sn.sess[id] != 0 || r.mocks[id].model == e.a || r.prev.closed[id] {
 				continue
@@ -1015,10 +1306,18 @@ func (r *schedRun) monitors(e schedEv, subq *schedReq, sn schedSnap) {
 	// deadlock: goroutines parked on a sync.Mutex although no load is in flight (the load goroutine is the only one
 	// that legitimately parks, in WaitUntilRunning, while holding a mutex) and no helper is sleeping: the holder is
 	// parked on a channel whose only consumers are parked too
-	if r.cen.mutex > 0 && r.cen.sleeping == 0 {
+	if r.cen.handover > 0 {
+		// after the requesters have been given their chance to listen (quiesce) a hand-over is still parked: its
+		// requester has left without its answer; refMu stays held, the loop (or the load goroutine) never returns
+		r.flag("c02-deadlock-handover", fmt.Sprintf("%d goroutines parked in the hand-over of a runner to a requester that is no longer listening (%d more parked on a mutex: %s)",
+			r.cen.handover, r.cen.mutex, r.cen.mutexDesc))
+	}
+	if (r.cen.mutex > 0 || r.cen.schedSend > 0) && r.cen.sleeping == 0 && r.cen.handover == 0 {
+		// (a send on finishedReqCh / expiredCh / unloadedCh that is still parked now: its consumer loop is parked on a
+		// mutex or on a full channel itself - processCompleted sends on expiredCh, which only it drains)
 		inflight := false
 		for _, m := range r.mocks {
-			if m.waiting {
+			if m.waiting || m.pinging || m.closing {
 				inflight = true
 			}
 		}
@@ -1034,9 +1333,11 @@ func (r *schedRun) monitors(e schedEv, subq *schedReq, sn schedSnap) {
 	}
 	// liveness: nothing in flight, nobody holds a runner, all helper delays have passed: every request that is
 	// still waiting must have been answered
-	settled := r.cen.mutex == 0 && time.Since(r.lastAct) >= schedSettle
+	// (in a wedged trace the liveness monitors below would only repeat the deadlock)
+	settled := r.cen.mutex == 0 && time.Since(r.lastAct) >= schedSettle && !r.l2seen["c02-deadlock-queue"] &&
+		!r.l2seen["c02-deadlock-lockorder"] && !r.l2seen["c02-deadlock-handover"]
 	for _, m := range r.mocks {
-		if m.waiting {
+		if m.waiting || m.pinging || m.closing {
 			settled = false
 		}
 	}
@@ -1086,6 +1387,12 @@ func (r *schedRun) finish() bool {
 			if m.waiting && len(m.rel) == 0 {
 				m.rel <- errors.New("verif: trace ended")
 			}
+			if m.pinging && len(m.pingRel) == 0 {
+				m.pingRel <- errors.New("verif: trace ended")
+			}
+			if m.closing && len(m.closeRel) == 0 {
+				m.closeRel <- struct{}{}
+			}
 		}
 	}
 	release()
@@ -1095,7 +1402,11 @@ func (r *schedRun) finish() bool {
 	go func() {
 		for {
 			select {
-			case <-s.pendingReqCh:
+			case req := <-s.pendingReqCh:
+				select {
+				case req.errCh <- errors.New("verif: trace ended"): // lets a scheduleRunner that still waits return
+				default:
+				}
 			case <-s.finishedReqCh:
 			case <-s.expiredCh:
 			case <-s.unloadedCh:
@@ -1104,7 +1415,13 @@ func (r *schedRun) finish() bool {
 			}
 		}
 	}()
-	want := len(r.reqs) + 1
+	nreq := 0
+	for _, q := range r.reqs {
+		if !q.routed {
+			nreq++
+		}
+	}
+	want := nreq + 1
 	for i := 0; i < 8; i++ {
 		r.quiesce()
 		release()
@@ -1116,6 +1433,7 @@ func (r *schedRun) finish() bool {
 			r.advance(250 * time.Millisecond)
 		}
 	}
+	// (a scheduleRunner whose cancelled request was skipped by the pending loop waits for ever: r.routedWait > 0)
 	clean := r.cen.others == want && r.cen.mutex == 0 && r.cen.sleeping == 0
 	if !clean {
 		n := runtime.Stack(r.buf, true)
@@ -1193,35 +1511,89 @@ func schedRunOne(t *testing.T, models []*Model, cfg schedCfg, src schedSource, o
 	return res
 }
 
+// schedModels installs (create) or opens the models in a real model store under dir (OLLAMA_MODELS): manifest + config
+// blob + one tiny GGUF blob per model, so that GetModel - and therefore Server.scheduleRunner - works.  The scheduler
+// orders eviction victims by model path, i.e. by blob digest: the GGUFs carry a nonce chosen so that the digests are
+// ordered like the model indices (the Lean model orders by model index).
 func schedModels(dir string, create bool) ([]*Model, error) {
+	os.Setenv("OLLAMA_MODELS", dir)
+	put := func(data []byte) (string, error) {
+		d := fmt.Sprintf("sha256:%x", sha256.Sum256(data))
+		p, err := GetBlobsPath(d)
+		if err != nil {
+			return "", err
+		}
+		return d, os.WriteFile(p, data, 0o644)
+	}
 	var ms []*Model
+	prev := ""
 	for i := 0; i < schedNModels; i++ {
-		p := filepath.Join(dir, fmt.Sprintf("verif-model-%d.gguf", i))
+		name := fmt.Sprintf("verif-m%d", i)
 		if create {
-			f, err := os.Create(p)
+			var gguf []byte
+			for nonce := 0; ; nonce++ {
+				f, err := os.CreateTemp(dir, "gguf")
+				if err != nil {
+					return nil, err
+				}
+				err = ggml.WriteGGUF(f, ggml.KV{
+					"general.architecture":          "llama",
+					"general.name":                  fmt.Sprintf("%s-%d", name, nonce),
+					"llama.context_length":          uint32(32),
+					"llama.embedding_length":        uint32(4096),
+					"llama.block_count":             uint32(1),
+					"llama.attention.head_count":    uint32(32),
+					"llama.attention.head_count_kv": uint32(32),
+					"tokenizer.ggml.tokens":         []string{" "},
+					"tokenizer.ggml.scores":         []float32{0},
+					"tokenizer.ggml.token_type":     []int32{0},
+				}, []ggml.Tensor{
+					{Name: "blk.0.attn.weight", Kind: uint32(0), Offset: uint64(0), Shape: []uint64{1, 1, 1, 1}, WriterTo: bytes.NewReader(make([]byte, 32))},
+					{Name: "output.weight", Kind: uint32(0), Offset: uint64(0), Shape: []uint64{1, 1, 1, 1}, WriterTo: bytes.NewReader(make([]byte, 32))},
+				})
+				f.Close()
+				if err == nil {
+					gguf, err = os.ReadFile(f.Name())
+				}
+				os.Remove(f.Name())
+				if err != nil {
+					return nil, err
+				}
+				if d := fmt.Sprintf("sha256:%x", sha256.Sum256(gguf)); d > prev {
+					prev = d
+					break
+				}
+			}
+			md, err := put(gguf)
 			if err != nil {
 				return nil, err
 			}
-			err = ggml.WriteGGUF(f, ggml.KV{
-				"general.architecture":          "llama",
-				"llama.context_length":          uint32(32),
-				"llama.embedding_length":        uint32(4096),
-				"llama.block_count":             uint32(1),
-				"llama.attention.head_count":    uint32(32),
-				"llama.attention.head_count_kv": uint32(32),
-				"tokenizer.ggml.tokens":         []string{" "},
-				"tokenizer.ggml.scores":         []float32{0},
-				"tokenizer.ggml.token_type":     []int32{0},
-			}, []ggml.Tensor{
-				{Name: "blk.0.attn.weight", Kind: uint32(0), Offset: uint64(0), Shape: []uint64{1, 1, 1, 1}, WriterTo: bytes.NewReader(make([]byte, 32))},
-				{Name: "output.weight", Kind: uint32(0), Offset: uint64(0), Shape: []uint64{1, 1, 1, 1}, WriterTo: bytes.NewReader(make([]byte, 32))},
-			})
-			f.Close()
+			cfg := []byte(`{"model_format":"gguf","model_family":"llama","model_families":["llama"],"model_type":"1B","file_type":"F32"}`)
+			cd, err := put(cfg)
 			if err != nil {
+				return nil, err
+			}
+			man := fmt.Sprintf(`{"schemaVersion":2,"mediaType":"application/vnd.docker.distribution.manifest.v2+json","config":{"mediaType":"application/vnd.docker.container.image.v1+json","digest":%q,"size":%d},"layers":[{"mediaType":"application/vnd.ollama.image.model","digest":%q,"size":%d}]}`,
+				cd, len(cfg), md, len(gguf))
+			mp, err := ParseModelPath(name).GetManifestPath()
+			if err != nil {
+				return nil, err
+			}
+			if err := os.MkdirAll(filepath.Dir(mp), 0o755); err != nil {
+				return nil, err
+			}
+			if err := os.WriteFile(mp, []byte(man), 0o644); err != nil {
 				return nil, err
 			}
 		}
-		ms = append(ms, &Model{Name: fmt.Sprintf("verif-model-%d", i), ModelPath: p})
+		m, err := GetModel(name)
+		if err != nil {
+			return nil, err
+		}
+		if len(ms) > 0 && ms[len(ms)-1].ModelPath >= m.ModelPath {
+			return nil, fmt.Errorf("model paths are not ordered: %s %s", ms[len(ms)-1].ModelPath, m.ModelPath)
+		}
+		ms = append(ms, m)
 	}
 	return ms, nil
 }
@@ -1234,6 +1606,7 @@ func schedChild(t *testing.T) {
 	}
 	jobs := strings.Split(strings.TrimRight(string(data), "\n"), "\n")
 	start := zzverif.EnvInt("VERIF_SCHED_START", 0)
+	t.Setenv("OLLAMA_MODELS", os.Getenv("VERIF_SCHED_MODELS")) // restored when the test ends
 	models, err := schedModels(os.Getenv("VERIF_SCHED_MODELS"), false)
 	if err != nil {
 		t.Fatal(err)
@@ -1451,6 +1824,7 @@ func TestVerifSched(t *testing.T) {
 		return
 	}
 	dir := t.TempDir()
+	t.Setenv("OLLAMA_MODELS", dir)
 	if _, err := schedModels(dir, true); err != nil {
 		t.Fatal(err)
 	}
